@@ -330,6 +330,40 @@ def io_crosscheck(cases):
             bad.append("case %s: vm_compute gives %s %s, the extracted driver %s" % (line, bytes(c[:k]).hex(), rs, d[:80]))
     return len(coq), bad
 
+def statics_crosscheck(model_lines):
+    """the same for Model/Static.v: model_lines are driver input lines `<mode> <header hex> op ...` with ops F/A/D (hex fields)"""
+    work = os.path.join(BUILD, "xcheck"); os.makedirs(work, exist_ok=True)
+    v = ["From Ructe Require Import Nom Static Extract.", "Local Open Scope list_scope.",
+         "Definition runs (mm : mime_mode) (header : list N) (ops : list sop) : list N := finish (fold_left (apply_op_m mm) ops (empty_statics header))."]
+    use = []
+    for l in model_lines:
+        f = l.split(" ")
+        ops = []
+        for op in f[2:]:
+            k = op.split(":")
+            if k[0] == "F": ops.append("OpFile %s %s" % (coq_bytes(unhexs(k[1])), coq_bytes(unhexs(k[2]))))
+            elif k[0] == "A": ops.append("OpFileAs %s %s" % (coq_bytes(unhexs(k[1])), coq_bytes(unhexs(k[2]))))
+            elif k[0] == "D": ops.append("OpData %s %s" % (coq_bytes(unhexs(k[1])), coq_bytes(unhexs(k[2]))))
+            else: ops = None; break
+        if ops is None: continue
+        mode = {"3": "M03", "h": "MHttp"}.get(f[0], "MNone")
+        v.append("Eval vm_compute in runs %s %s [%s]." % (mode, coq_bytes(unhexs(f[1])), "; ".join(ops))); use.append(l)
+    open(os.path.join(work, "xst.v"), "w").write("\n".join(v) + "\n")
+    with Lock():
+        r = subprocess.run(["coqc", "-noglob", "-Q", os.path.join(COQ, "theories"), "Ructe", "xst.v"], cwd=work, capture_output=True, text=True, timeout=1800)
+    if r.returncode != 0:
+        return 0, ["coqc failed on the statics cross-check file: " + r.stderr[-400:]]
+    outs = re.findall(r"=\s*(\[[^\]]*\])\s*:\s*list N", r.stdout, re.S)
+    coq = [bytes(int(x) for x in re.findall(r"(\d+)%N", o)) for o in outs]
+    drv = run_model("statics", use)
+    bad = []
+    if len(coq) != len(use): bad.append("%d results from Coq for %d inputs" % (len(coq), len(use)))
+    for l, c, d in zip(use, coq, drv):
+        m = re.search(r"statics=([0-9a-f-]+)", d)
+        if not m or unhexs(m.group(1)) != c:
+            bad.append("history %s...: vm_compute and the extracted driver give different statics.rs texts" % l[:120])
+    return len(coq), bad
+
 # ------------------------------------------------------------------ known findings
 
 def known_findings():
@@ -412,7 +446,7 @@ TRUSTED_BASE = [
     "Coq 8.16.1 kernel (vm_compute used for finite table checks and witnesses; native_compute not used)",
     "no axioms declared; every property theorem must print 'Closed under the global context'",
     "hand-written Gallina model of the code, tied to /repo by the correspondence check (extracted OCaml vs implementation, byte for byte) and by translator-generated tables",
-    "extraction: ExtrOcamlBasic only (Extract Inductive bool option unit list prod sumbool sumor; Extract Inlined Constant andb orb); OCaml 4.13.1; hex line driver; on every run of C02, C06 and C11 a sample of the cases is also evaluated by vm_compute inside Coq and compared with what the extracted driver prints",
+    "extraction: ExtrOcamlBasic only (Extract Inductive bool option unit list prod sumbool sumor; Extract Inlined Constant andb orb); OCaml 4.13.1; hex line driver; on every run of C02, C06, C08 and C11 a sample of the cases is also evaluated by vm_compute inside Coq and compared with what the extracted driver prints",
     "translator/skeleton.py: the parsers' literals (tags, messages, delimiter sets) are read from the Rust source with regular expressions and compared with the model's, in order",
     "Rust harness (catch_unwind), Python generators/oracles, rustc 1.95.0 and installed core for compile-and-run batches",
 ]
